@@ -211,7 +211,15 @@ def from_alg(tx, n, skip=()):
         else:
             variables[s] = (i0, steps.pop())
     pre = []
-    for c in tx.pre.pc:
+    flat = []
+    todo = list(tx.pre.pc)
+    while todo:
+        c = todo.pop(0)
+        if isinstance(c, alg.BoolOp) and c.op == 'and':
+            todo = list(c.args) + todo       # (p && n): both hold on the way to the loop
+        else:
+            flat.append(c)
+    for c in flat:
         if not isinstance(c, alg.Cond) or c.kind != 'icmp':
             raise Unsupported('the loop is reached under %r' % (c,))
         fs = sp.sympify(c.a).free_symbols | sp.sympify(c.b).free_symbols
